@@ -241,7 +241,10 @@ class LocMap:
                 if labels.dtype != key.dtype:
                     labels_ref = labels.astype(key.dtype)
                     # let Boolean key advance to next branch
-                    key = reduce(operator_mod.or_, (labels_ref == k for k in key))
+                    # an empty key selects nothing: reduce needs an initial value
+                    key = reduce(operator_mod.or_,
+                            (labels_ref == k for k in key),
+                            np.full(len(labels), False))
 
             if is_array and key.dtype == DTYPE_BOOL:
                 if offset_apply:
